@@ -153,8 +153,8 @@ v("C11", "mkdir-before-compare", LIB, "\tif (digital_rf_handle_metadata(hdf5_dat
 v("C11", "break-after-first-dir", RF,
   "                len_only=False,\n                sub_channel=sub_channel,\n            )\n",
   "                len_only=False,\n                sub_channel=sub_channel,\n            )\n            if cont_data_dict:\n                break\n", rules=["C11.R4"])
-v("C11", "refusal-sets-failure", LIB, "\t\tfprintf(stderr, \"%s\", error_str);\n\t\treturn(-1);\n\t}\n\n\t/* Create a new file. If file exists will fail. */",
-  "\t\tfprintf(stderr, \"%s\", error_str);\n\t\thdf5_data_object->has_failure = 1;\n\t\treturn(-1);\n\t}\n\n\t/* Create a new file. If file exists will fail. */", rules=["C11.R3"])
+v("C11", "refusal-sets-failure", LIB, "\t\tfprintf(stderr, \"%s\", error_str);\n\t\treturn(-1);\n\t}\n\n    if (hdf5_data_object->marching_dots)",
+  "\t\tfprintf(stderr, \"%s\", error_str);\n\t\thdf5_data_object->has_failure = 1;\n\t\treturn(-1);\n\t}\n\n    if (hdf5_data_object->marching_dots)", rules=["C11.R3"])
 
 # ---- C07 -----------------------------------------------------------------------------------------------------
 v("C07", "nan-not-swapped-again", LIB, "\t\tdigital_rf_reverse_bytes(&double_fill, sizeof(double));\n", "", rules=["C07.R1"])
@@ -223,7 +223,7 @@ v("C20", "bounds-cached", DM, "        return (first_sample, last_sample)\n", " 
 v("C14", "file-regex-wrong-kind", LD, "    elif yielding_drf_channel:\n        file_regex = _RE_DRFFILE", "    elif yielding_drf_channel:\n        file_regex = _RE_DMDFILE", rules=["C14.R2"])
 v("C14", "props-from-data-flag", LD, "    elif include_drf_properties:\n        prop_regex = _RE_DRFPROPFILE", "    elif include_drf:\n        prop_regex = _RE_DRFPROPFILE", rules=["C14.R2"])
 v("C14", "merge-sort-deleted", LD, "                    dec_files = dec_prior_files\n                    dec_files.sort()\n", "                    dec_files = dec_prior_files\n", rules=["C14.R3"])
-v("C14", "listdir-unguarded", LD, "        try:\n            subdir_files = os.listdir(os.path.join(root, subdir))\n        except OSError:\n            # directory failed to list (e.g. doesn't exist anymore), skip\n            continue\n",
+v("C14", "listdir-unguarded", LD, "        try:\n            subdir_files = os.listdir(os.path.join(root, subdir))\n        except OSError:\n            # directory failed to list (e.g. doesn't exist anymore), it holds\n            # no files (but the look-back below must still happen)\n            subdir_files = []\n",
   "        subdir_files = os.listdir(os.path.join(root, subdir))\n", rules=["C14.R4"])
 v("C14", "empty-guard-removed", LD, "            and (not dec_files or dec_files[0][0] >= starttime)", "            and dec_files[0][0] >= starttime", rules=["C14.R4"])
 _C14_LOOP = """    enum_subdirs = list(enumerate(dec_subdirs[subdir_slice]))
@@ -280,24 +280,23 @@ v("C17", "makedirs-outside-try", MR, "        try:\n            if not os.path.e
 v("C17", "move-handler-takes-metadata", MR, "                include_drf=True,\n                include_dmd=False,\n                include_drf_properties=False,", "                include_drf=True,\n                include_dmd=True,\n                include_drf_properties=False,", rules=["C17.R3"])
 v("C17", "copy-handler-keeps-rf-in-move", MR, 'include_drf=(self.include_drf and self.method in ("copy", "link")),', "include_drf=self.include_drf,", rules=["C17.R3"])
 v("C17", "ringbuffer-count-2", MR, "                count=1,\n", "                count=2,\n", rules=["C17.R3"])
-v("C18", "size-filter-before-move", LD, "            shutil.move(srcpath, destpath)", "            if os.path.getsize(srcpath) > 0:\n                shutil.move(srcpath, destpath)", rules=["C18.R1"])
+v("C18", "size-filter-before-move", LD, "        shutil.move(srcpath, destpath)", "        if os.path.getsize(srcpath) > 0:\n            shutil.move(srcpath, destpath)", rules=["C18.R1"])
 v("C18", "forgot-del-chs", LD, '    del kwargs["chs"]\n', "", rules=["C18.R2"])
 v("C18", "reverse-dest-renamed", LD, '        "-R",\n        "--reverse",\n        action="store_true",\n        help="""Traverse directories and include',
   '        "-R",\n        "--reverse",\n        dest="rev",\n        action="store_true",\n        help="""Traverse directories and include', rules=["C18.R2"])
 v("C18", "nodmd-stores-true", LD, '        "--nodmd",\n        dest="include_dmd",\n        action="store_false",', '        "--nodmd",\n        dest="include_dmd",\n        action="store_true",', rules=["C18.R2"])
 v("C18", "mv-runs-cp", LD, "    parser.set_defaults(func=_run_mv)", "    parser.set_defaults(func=_run_cp)", rules=["C18.R3"])
-v("C18", "channels-never-collapsed", LD, "        if (src, dest) in args.srcdests:\n            continue\n        if args.recursive and any(_is_below(src, other) for other, _ in srcdests):\n            continue\n", "", rules=["C18.R4"])
-v("C18", "cp-destination-dir-memo-ignores-dest", LD, 'def _run_cp(args):\n    args, kwargs = _parse_srcdest_args(args)\n    for src, dest in args.srcdests:\n        for srcpath in ilsdrf(src, **kwargs):\n            destpath = os.path.join(dest, os.path.relpath(srcpath, src))\n            destdir = os.path.dirname(destpath)\n            if not os.path.exists(destdir):\n                os.makedirs(destdir)\n            shutil.copy2(srcpath, destpath)\n', 'def _run_cp(args):\n    args, kwargs = _parse_srcdest_args(args)\n    reldir = None\n    for src, dest in args.srcdests:\n        for srcpath in ilsdrf(src, **kwargs):\n            srcdir, name = os.path.split(os.path.relpath(srcpath, src))\n            if srcdir != reldir:\n                reldir = srcdir\n                destdir = os.path.join(dest, reldir)\n                if not os.path.exists(destdir):\n                    os.makedirs(destdir)\n            destpath = os.path.join(destdir, name)\n            shutil.copy2(srcpath, destpath)\n', rules=["C18.R1"])
-v("C18", "twin-cp-loop-in-generator", LD, 'def _run_cp(args):\n    args, kwargs = _parse_srcdest_args(args)\n    for src, dest in args.srcdests:\n        for srcpath in ilsdrf(src, **kwargs):\n            destpath = os.path.join(dest, os.path.relpath(srcpath, src))\n            destdir = os.path.dirname(destpath)\n            if not os.path.exists(destdir):\n                os.makedirs(destdir)\n            shutil.copy2(srcpath, destpath)\n', 'def _transfers(srcdests, kwargs):\n    for src, dest in srcdests:\n        for srcpath in ilsdrf(src, **kwargs):\n            destpath = os.path.join(dest, os.path.relpath(srcpath, src))\n            destdir = os.path.dirname(destpath)\n            if not os.path.exists(destdir):\n                os.makedirs(destdir)\n            yield srcpath, destpath\n\n\ndef _run_cp(args):\n    args, kwargs = _parse_srcdest_args(args)\n    for srcpath, destpath in _transfers(args.srcdests, kwargs):\n        shutil.copy2(srcpath, destpath)\n', expect="silent")
-v("C18", "twin-below-by-sep", LD, '    return path.startswith(os.path.join(top, ""))', "    return path.startswith(top + os.sep)", expect="silent")
+v("C18", "pairs-below-another-pruned", LD, "        if srcdest not in args.srcdests:\n            args.srcdests.append(srcdest)\n", "        if srcdest not in args.srcdests and not (\n            args.recursive and any(srcdest[0].startswith(os.path.join(o, \"\")) for o, _ in args.srcdests)\n        ):\n            args.srcdests.append(srcdest)\n", rules=["C18.R4"])
+v("C18", "destination-dir-memo-ignores-dest", LD, '    seen = set()\n    for src, dest in srcdests:\n        for srcpath in ilsdrf(src, **kwargs):\n            destpath = os.path.join(dest, os.path.relpath(srcpath, src))\n', '    seen = set()\n    reldir = None\n    for src, dest in srcdests:\n        for srcpath in ilsdrf(src, **kwargs):\n            srcdir, name = os.path.split(os.path.relpath(srcpath, src))\n            if srcdir != reldir:\n                reldir = srcdir\n                destdir_ = os.path.join(dest, reldir)\n            destpath = os.path.join(destdir_, name)\n', rules=["C18.R1"])
+v("C18", "twin-cp-transfers-through-a-local", LD, 'def _run_cp(args):\n    args, kwargs = _parse_srcdest_args(args)\n    for srcpath, destpath in _iter_transfers(args.srcdests, kwargs):\n        destdir = os.path.dirname(destpath)\n        if not os.path.exists(destdir):\n            os.makedirs(destdir)\n        shutil.copy2(srcpath, destpath)\n', 'def _run_cp(args):\n    args, kwargs = _parse_srcdest_args(args)\n    transfers = _iter_transfers(args.srcdests, kwargs)\n    for srcpath, destpath in transfers:\n        destdir = os.path.dirname(destpath)\n        if not os.path.exists(destdir):\n            os.makedirs(destdir)\n        shutil.copy2(srcpath, destpath)\n', expect="silent")
 v("C01", "complex-cast-type-native", RF, "                    ).newbyteorder(self.realdtype.byteorder)\n", "                    )\n", rules=["C01.R7"])
 v("C01", "twin-complex-cast-type-via-byteorder-attr", RF, "                    ).newbyteorder(self.realdtype.byteorder)\n", "                    ).newbyteorder(self.structdtype[\"r\"].byteorder)\n", expect="analysis-error")
 # ---- rules added after the defect hunt (DESIGN 9.7): each fix reverted must fire its rule ------------------------
 v(["C15", "C16"], "name-spans-directories", LD, 'RE_FILENAME = r"(?P<name>(?!tmp\\.)[^" + re.escape(os.sep) + r"]+?)"', 'RE_FILENAME = r"(?P<name>(?!tmp\\.).+?)"', rules=["C15.R3"])
-v("C15", "window-once-per-event", WD, "                if m and (not match_time or self._in_time_window(m)):\n                    matched = True",
-  "                if m:\n                    matched = True", rules=["C15.R6"])
-v("C17", "already-mirrored-by-stat", MR, "            if not os.path.exists(dest_path) or not filecmp.cmp(\n                src_path, dest_path, shallow=False\n            ):",
-  "            if not os.path.exists(dest_path) or not filecmp.cmp(src_path, dest_path):", rules=["C17.R5"])
+v("C15", "window-once-per-event", WD, "                    and (not match_time or self._in_time_window(m))\n",
+  "", rules=["C15.R6"])
+v("C17", "already-mirrored-by-stat", MR, "                or filecmp.cmp(src_path, dest_path, shallow=False)\n",
+  "                or filecmp.cmp(src_path, dest_path)\n", rules=["C17.R5"])
 v("C17", "leftover-staging-file-kept", MR, "                                os.remove(dst)\n                                os.link(src, dst)\n", "                                pass\n", rules=["C17.R5"])
 v("C17", "moved-files-ignored", MR, "    def on_moved(self, event):", "    def _unused_on_moved(self, event):", rules=["C17.R2"])
 v("C17", "moved-deletes-in-dest", MR, "        self.mirror_to_dest(event.dest_path)\n", "        self.mirror_to_dest(event.dest_path)\n        os.remove(self._get_dest_path(event.src_path))\n", rules=["C17.R2"])
@@ -315,7 +314,7 @@ v("C09", "probe-and-read-interleaved", RF, "            present = []\n          
 v("C09", "probing-pass-oldest-first", RF, "            for fp in reversed(filepaths):\n                fullfile = os.path.join(self.top_level_dir, self.channel_name, fp)\n                if os.access(fullfile, os.R_OK):\n                    present.append(fullfile)\n            for fullfile in reversed(present):\n",
   "            for fp in filepaths:\n                fullfile = os.path.join(self.top_level_dir, self.channel_name, fp)\n                if os.access(fullfile, os.R_OK):\n                    present.append(fullfile)\n            for fullfile in present:\n", rules=["C09.R4"])
 v("C09", "twin-probing-pass-insert-front", RF, "                    present.append(fullfile)\n            for fullfile in reversed(present):\n", "                    present.insert(0, fullfile)\n            for fullfile in present:\n", expect="silent")
-v("C20", "reader-cache-by-channel", RF, "        reader_key = (channel_name, top_level_dir)", "        reader_key = channel_name", rules=["C20.R7"])
+v("C20", "reader-cache-by-channel", RF, "                reader_key = (channel_name, this_top_level_dir)", "                reader_key = channel_name", rules=["C20.R7"])
 v("C19", "gap-from-requested-index", RF, "        gap_size = (next_avail_sample - self._next_avail_sample) - nwritten", "        gap_size = next_sample - self._next_avail_sample", rules=["C19.R2"])
 v("C19", "gap-without-nwritten", RF, "        gap_size = (next_avail_sample - self._next_avail_sample) - nwritten", "        gap_size = next_avail_sample - self._next_avail_sample", rules=["C19.R2"])
 v("C19", "returns-prestate", RF, "        self._total_gap_samples += gap_size\n        self._next_avail_sample = next_avail_sample\n\n        return next_avail_sample\n",
@@ -346,6 +345,25 @@ v("C14", "subdir-date-handler-reraises", LD, "                others.append(d)\n
 v("C14", "start-bound-floored-to-ms", LD, "        starttime = starttime - util.epoch\n", "        starttime = starttime - util.epoch\n        starttime = datetime.timedelta(milliseconds=starttime // datetime.timedelta(milliseconds=1))\n", rules=["C14.R10"])
 v("C14", "twin-bounds-via-temporary", LD, "        starttime = starttime - util.epoch\n", "        since_epoch = starttime - util.epoch\n        starttime = since_epoch\n", expect="silent")
 v("C14", "twin-sort-call-style", LD, "    dec_subdirs.sort()\n    subdir_slice", "    dec_subdirs.sort()  # ascending time\n    subdir_slice", expect="silent")
+
+# ---- revert-the-fix variants for F36-F51 (second defect hunt) -------------------------------------------------
+v('C18', 'revert-F36-no-per-file-skip', LD, '            if destpath in seen:\n                continue\n            seen.add(destpath)\n', '', rules=['C18.R4'])
+v('C16', 'revert-F37-scan-unfiltered', RB, '        return (p for p in existing if self.event_handler._match_path(p, True))\n', '        return existing\n', rules=['C16.R6'])
+v('C17', 'revert-F38-handlers-scheduled-one-by-one', MR, '        self.observer.schedule(\n            _OrderedHandlers(self.event_handlers), self.src, recursive=True\n        )\n', '        for handler in self.event_handlers:\n            self.observer.schedule(handler, self.src, recursive=True)\n', rules=['C17.R4'])
+v('C17', 'revert-F39-no-samefile', MR, '            if not os.path.exists(dest_path) or not (\n                os.path.samefile(src_path, dest_path)\n                or filecmp.cmp(src_path, dest_path, shallow=False)\n            ):', '            if not os.path.exists(dest_path) or not filecmp.cmp(\n                src_path, dest_path, shallow=False\n            ):', rules=['C17.R5'])
+v('C15', 'revert-F40-no-validity-test', WD, '                    and self._is_timed_path(m)\n', '', rules=['C15.R7'])
+v('C12', 'revert-F41-start-incremented-in-caller-type', DM, '            start_sample = int(start_sample) + 1\n', '            start_sample += 1\n', rules=['C12.R7'])
+v('C12', 'revert-F42-index-column-dtype-less', DM, '        if index and max(index) >= 2**63:\n            # sample indices are unsigned 64-bit integers: do not let NumPy\n            # promote a mix of values below and above 2**63 to float64\n            index = list(np.array(index, dtype=np.uint64))\n', '', rules=['C12.R7'])
+v('C12', 'revert-F43-element-decode-unguarded', DM, '                        if isinstance(v, bytes):\n                            try:\n                                v = v.decode()\n                            except UnicodeDecodeError:\n                                # not text, keep the bytes (as for a scalar)\n                                pass\n                        str_val[idx] = v\n', '                        str_val[idx] = v.decode() if isinstance(v, bytes) else v\n', rules=['C12.R5'])
+v('C10', 'revert-F44-failed-create-leaves-file', LIB, '\t\t\tif (!name_in_use)\n\t\t\t\tremove(metadata_file);\n', '', rules=['C10.R1'])
+v('C11', 'revert-F45-directory-loop-outside', RF, '        for last_file in file_list:\n            for key in self._top_level_dir_dict.keys():\n', '        for key in self._top_level_dir_dict.keys():\n            for last_file in file_list:\n', rules=['C11.R8'])
+v('C14', 'revert-F46-sortkey-without-properties', LD, '        regexes = [_RE_FILE, _RE_PROPFILE]\n', '        regexes = [_RE_FILE]\n', rules=['C14.R11'])
+v('C14', 'revert-F47-vanished-subdir-skips-lookback', LD, '            # no files (but the look-back below must still happen)\n            subdir_files = []\n', '            continue\n', rules=['C14.R11'])
+v('C04', 'revert-F48-reader-uses-fromtimestamp', RF, '                datetime.datetime(1970, 1, 1, tzinfo=datetime.timezone.utc)\n                + datetime.timedelta(seconds=int(sub_ts))\n', '                datetime.datetime.fromtimestamp(sub_ts, tz=datetime.timezone.utc)\n', rules=['C04.R2'])
+v('C05', 'revert-F50-empty-vector-unchecked', LIB, '\tif (vector_length == 0 && (index_len != 1 || data_index_arr[0] != 0))\n\t{\n\t\tsnprintf(error_str, SMALL_HDF5_STR, "Illegal block description for an empty data vector\\n");\n\t\tfprintf(stderr, "%s", error_str);\n\t\treturn(-6);\n\t}\n', '', rules=['C05.R6'])
+v('C20', 'revert-F51-memo-key-without-resolved-directory', RF, '                reader_key = (channel_name, this_top_level_dir)\n', '                reader_key = (channel_name, top_level_dir)\n', rules=['C20.R7'])
+v('C05', 'revert-F49-existence-test-after-the-close', LIB, '\t/* refuse before anything is changed if the file is already there, finished or as a (left-over\n\t * or foreign) temporary file: this is not an io failure of this writer, and neither file is ours */\n\tsnprintf(finished_fullname, sizeof(finished_fullname), "%s/%s/%s", hdf5_data_object->directory, subdir, strstr(basename, "rf"));\n\tsnprintf(fullname, sizeof(fullname), "%s/%s/%s", hdf5_data_object->directory, subdir, basename);\n\tif (access(finished_fullname, F_OK) != -1 || access(fullname, F_OK) != -1)\n\t{\n\t\tsnprintf(error_str, sizeof(error_str), "The following Hdf5 file already exists: %s\\n",\n\t\t\t\taccess(finished_fullname, F_OK) != -1 ? finished_fullname : fullname);\n\t\tfprintf(stderr, "%s", error_str);\n\t\treturn(-1);\n\t}\n\n', '', rules=['C05.R5'])
+v('C04', 'revert-F48-c-gmtime', LIB, '\tdays = (int64_t)unix_second / 86400;\n', '\t{ struct tm *gm = gmtime(&unix_second); if (gm == NULL) return(-1); }\n\tdays = (int64_t)unix_second / 86400;\n', rules=['C04.R2'])
 
 
 def for_property(prop):
